@@ -1602,9 +1602,32 @@ def coq_pty(tp, subs, mem: Members) -> str:
     return f"(QLeaf {coq_str(cname)} {'true' if t2 in SCALARS else 'false'} (tb [{rows}]))"
 
 
+def coq_rty(tp, subs, mem: Members) -> str:
+    """coq_pty with the typing membership of every leaf (UnionMember.rty)"""
+    k, a = deep_kind(tp)
+    if k == "opt":
+        return f"(ROpt {coq_rty(a, subs, mem)})"
+    if k == "union":
+        return "(RU [" + "; ".join(f"({i + 1}%nat, {coq_rty(m, subs, mem)})" for i, m in enumerate(a)) + "])"
+    if structural(tp):
+        if k == "list":
+            return f"(RList {coq_rty(a, subs, mem)})"
+        if k == "tupv":
+            return f"(RTupV {coq_rty(a, subs, mem)})"
+        if k == "tupf":
+            return "(RTupF [" + "; ".join(coq_rty(t, subs, mem) for t in a) + "])"
+        return f"(RDict {coq_rty(a, subs, mem)})"
+    t2 = NoneType if tp is None else tp
+    cname = "NoneType" if t2 is NoneType else getattr(typing.get_origin(t2) or t2, "__name__", "x")
+    rows = "; ".join(f"({to_uv(x)}, {to_ouv(mem.encode(t2, x, False))})" for x in subs)
+    crows = "; ".join(f"({to_uv(x)}, {'true' if conforms(t2, x) else 'false'})" for x in subs)
+    return f"(RLeaf {coq_str(cname)} {'true' if t2 in SCALARS else 'false'} (tb [{rows}]) (tbb [{crows}]))"
+
+
 def deep_enc_part(ctx: vlib.Ctx, mod, mem: Members):
     rng = ctx.rng
     qcases, qinfo = [], []
+    rcases, rinfo, pool = [], [], []
     curated = ["List[Union[int, date]]", "Dict[str, Optional[Union[int, date]]]", "Tuple[Union[date, str], ...]",
                "Union[List[Union[int, date]], str]", "Dict[str, Union[List[int], List[date]]]", "List[Union[Decimal, int]]",
                "Tuple[Optional[date], Union[str, UUID, None]]", "Union[Dict[str, Union[date, int]], List[Optional[date]], str]",
@@ -1635,6 +1658,19 @@ def deep_enc_part(ctx: vlib.Ctx, mod, mem: Members):
                 v = eval(vx, mod.__dict__)
             except Exception:
                 continue
+            # membership (UnionMember.rconf) against conforms() on a value made for ANOTHER type as well
+            if pool and rng.random() < 0.5:
+                ox, ov = rng.choice(pool)
+                osubs = subvalues(ov)
+                if ascii_only_str(osubs) and len(rcases) < ctx.budget(900, 6000):
+                    oc = conforms(tp, ov)
+                    oexp = outcome(ref_enc_deep, tp, ov, mem) if oc else ("raise", "", False)
+                    oobs = outcome(site.encode, ov) if oc else ("raise", "", False)
+                    rcases.append(f"RCA {coq_rty(tp, osubs, mem)} {to_uv(ov)} {'true' if oc else 'false'} {to_ouv(oobs)} {to_ouv(oexp)}")
+                    rinfo.append((expr, ox, "foreign value", f"conforms={conforms(tp, ov)}"))
+                    ctx.hist("member_value", "foreign/" + ("member" if conforms(tp, ov) else "not-a-member"))
+            if len(pool) < 400:
+                pool.append((vx, v))
             if not conforms(tp, v):
                 continue
             expected = outcome(ref_enc_deep, tp, v, mem)
@@ -1666,8 +1702,15 @@ def deep_enc_part(ctx: vlib.Ctx, mod, mem: Members):
                 continue
             qcases.append(f"QCA {coq_pty(tp, subs, mem)} {to_uv(v)} {to_ouv(observed)} {to_ouv(expected)}")
             qinfo.append((expr, vx, show(observed), show(expected), cls))
+            rcases.append(f"RCA {coq_rty(tp, subs, mem)} {to_uv(v)} true {to_ouv(observed)} {to_ouv(expected)}")
+            rinfo.append((expr, vx, show(observed), show(expected), cls))
+            ctx.hist("member_value", "own/" + cls)
     corr(ctx, "deep-encode-model-vs-impl", qcases, qinfo, "qcase", ["qcase_ok", "qcase_ok_model", "qcase_ok_ref", "qcase_thm"],
          stale_fun="qcase_stale", imports="UnionModel UnionDeep UnionDeepEnc", shard=150, needs=("theories/UnionDeepEnc.vo",))
+    # typing membership and the membership reference inside the model: rconf = conforms(), rmem = the Python reference
+    # (first conforming member), and the theorem's conclusion evaluated on every case of its domain
+    corr(ctx, "member-value-model-vs-oracle", rcases, rinfo, "rcase", ["rcase_ok", "rcase_conf", "rcase_ref", "rcase_thm"],
+         imports="UnionModel UnionDeep UnionDeepEnc UnionMember", shard=150, needs=("theories/UnionMember.vo",))
 
 
 def ascii_only_str(subs) -> bool:
@@ -2203,6 +2246,7 @@ THEOREMS = [
     "C11_is_optional_spec", "C11_not_none_arg_spec", "C11_union_dispatch_correct", "C11_typevar_dispatch_correct",
     "C11_typevar_dispatch_model", "C11_optional_position_full", "C11_union_position_partial", "C11_union_position_refuted",
     "C11_dispatch_symmetric", "C11_optional_encode", "C11_field_none_test_once",
+    "C11_member_value_partial", "C11_member_value_refuted",
 ]
 
 
@@ -2220,10 +2264,12 @@ def run(ctx: vlib.Ctx):
         "tied to /repo only behaviourally (correspondence on every run), parametric in the member (un)packers whose behaviour is "
         "observed on the real code per case (BasicDecoder(member).decode / BasicEncoder(member).encode / single-field holder)",
         "Python `==` on bool/int/float/str/None (UnionModel.py_eq) and `type(value) is T` (kind_of) are modelled, not verified",
-        "harness: conforms() (which member a value belongs to), to_uv() (class name + repr as identity of a value)",
+        "harness: conforms() (which member a value belongs to; since round 6 only for LEAF types -- List[int], date, ... --, membership in "
+        "unions / Optional / containers around unions is UnionMember.rconf, compared with conforms() on every case), "
+        "to_uv() (class name + repr as identity of a value)",
         "K43: types / ValueSpec / returned expression abstracted to UnionDispatch.v (dty, dspec, dexpr); resolved_type_params keyed by "
-        "type variables; has_default() and the registry creators that run before (un)pack_special_typing_primitive are not part of the "
-        "kernel; the field-level None test of a nullable dataclass field (field_dec) is hand-modelled",
+        "type variables; has_default() is abstracted; of the registry creators that run before (un)pack_special_typing_primitive only the "
+        "names and their order are pinned (C11_creators_before); the field-level None test of a nullable dataclass field (field_dec) is hand-modelled",
     ]
     ctx.assumptions += [
         "coherent / pcoherent: members rendered to the same (un)packer expression behave identically on the input (same expression, deterministic callee)",
